@@ -9,6 +9,8 @@ import (
 	pb "github.com/marekgalovic/anndb/protobuf"
 	"github.com/marekgalovic/anndb/storage/raft"
 
+	"github.com/golang/protobuf/proto"
+
 	etcdRaft "github.com/coreos/etcd/raft"
 	"github.com/coreos/etcd/raft/raftpb"
 
@@ -28,12 +30,14 @@ type verifProposal struct {
 type verifNode struct {
 	proposals chan verifProposal
 	proposed  int
+	log       [][]byte
 }
 
 func (n *verifNode) Tick()                                  {}
 func (n *verifNode) Campaign(ctx context.Context) error     { return nil }
 func (n *verifNode) Propose(ctx context.Context, data []byte) error {
 	n.proposed++
+	n.log = append(n.log, data)
 	n.proposals <- verifProposal{data}
 	return nil
 }
@@ -246,6 +250,17 @@ func VerifC11Batch() {
 	if err != nil {
 		return
 	}
+	// nothing of the wrong dimension may have been proposed
+	for _, data := range node.log {
+		var ch pb.PartitionChange
+		if proto.Unmarshal(data, &ch) == nil {
+			for _, it := range ch.GetBatchItems() {
+				if kind != 2 {
+					verifrt.Assert(len(it.GetValue()) == 1, "wrong-dimension-item-never-proposed")
+				}
+			}
+		}
+	}
 	want := map[int]bool{}
 	switch kind {
 	case 0:
@@ -281,4 +296,53 @@ func VerifC11Batch() {
 		verifrt.Assert(has == want[i], "batch-reports-error-for-exactly-the-failed-ids")
 	}
 	verifrt.Reach("batch-end")
+}
+
+// VerifC11TwoNodes: two replicas of one partition, each with its own
+// notificator and its own proposer; both apply the same log in the same
+// order. Every caller must receive the outcome of its own entry and nothing
+// else (a replica applies entries proposed through the other node as well).
+func VerifC11TwoNodes() {
+	verifrt.Preemptions(verifrt.Bound("preempt", 1))
+	cfg := verifIdxConfigs()[0]
+	r1, n1 := verifRaftPartition(1, cfg)
+	r2, n2 := verifRaftPartition(1, cfg)
+	present := verifrt.Choose("pre", 2) == 1
+	if present {
+		r1.index.Insert(verifItemId(0), []float32{1}, nil, 0)
+		r2.index.Insert(verifItemId(0), []float32{1}, nil, 0)
+	}
+	// the shared log: proposals of both nodes in the order a decision picks
+	order := verifrt.Choose("order", 2)
+	applied := make(chan struct{})
+	go func() {
+		var first, second verifProposal
+		if order == 0 {
+			first = <-n1.proposals
+			second = <-n2.proposals
+		} else {
+			first = <-n2.proposals
+			second = <-n1.proposals
+		}
+		for _, pr := range []verifProposal{first, second} {
+			verifrt.Assert(r1.process(pr.data) == nil, "apply-never-fails")
+			verifrt.Assert(r2.process(pr.data) == nil, "apply-never-fails")
+		}
+		close(applied)
+	}()
+	var err1, err2 error
+	done := make(chan int, 2)
+	// node 1 inserts a fresh id, node 2 inserts id 0 (which may already exist)
+	go func() { err1 = r1.insert(context.Background(), verifItemId(1), []float32{2}, nil); done <- 1 }()
+	go func() { err2 = r2.insert(context.Background(), verifItemId(0), []float32{3}, nil); done <- 2 }()
+	<-done
+	<-done
+	<-applied
+	verifrt.Reach("two-nodes-returned")
+	verifrt.Assert(err1 == nil, "caller-1-gets-its-own-outcome")
+	if present {
+		verifrt.Assert(err2 == index.ItemAlreadyExistsError, "caller-2-gets-its-own-outcome")
+	} else {
+		verifrt.Assert(err2 == nil, "caller-2-gets-its-own-outcome")
+	}
 }
